@@ -66,6 +66,7 @@ func (f *StringFormatter) Format(format string, values []value.Primary) (string,
 		var flag rune = -1
 		width := -1
 		precision := -1
+		var ok bool
 
 		if f.isFlag(ch) {
 			placeholder.WriteRune(ch)
@@ -77,7 +78,9 @@ func (f *StringFormatter) Format(format string, values []value.Primary) (string,
 			f.offset = 1
 			f.scanDecimal()
 			placeholder.WriteString(f.literal())
-			width = f.integer()
+			if width, ok = f.integer(); !ok {
+				return "", NewFormatPlaceholderValueTooLargeError("width", f.literal())
+			}
 			ch = f.next()
 		}
 
@@ -86,7 +89,9 @@ func (f *StringFormatter) Format(format string, values []value.Primary) (string,
 			if f.isDecimal(ch) {
 				f.offset = 1
 				f.scanDecimal()
-				precision = f.integer()
+				if precision, ok = f.integer(); !ok {
+					return "", NewFormatPlaceholderValueTooLargeError("precision", f.literal())
+				}
 				ch = f.next()
 			} else {
 				precision = 0
@@ -211,9 +216,13 @@ func (f *StringFormatter) literal() string {
 	return string(f.runes())
 }
 
-func (f *StringFormatter) integer() int {
-	i, _ := strconv.Atoi(string(f.runes()))
-	return i
+// integer returns false when the scanned number is larger than the longest padding that is allowed to be built.
+func (f *StringFormatter) integer() (int, bool) {
+	i, err := strconv.Atoi(string(f.runes()))
+	if err != nil || math.MaxInt32 < i {
+		return 0, false
+	}
+	return i, true
 }
 
 func (f *StringFormatter) peek() rune {
